@@ -66,7 +66,14 @@ func mathAtan(L *LState) int {
 }
 
 func mathAtan2(L *LState) int {
-	L.Push(LNumber(math.Atan2(float64(L.CheckNumber(1)), float64(L.CheckNumber(2)))))
+	y, x := float64(L.CheckNumber(1)), float64(L.CheckNumber(2))
+	r := math.Atan2(y, x)
+	// atan2 always has the sign of y (C99 F.9.1.4); math.Atan2 loses it when y/x underflows to
+	// zero: Atan2(-1e-200, -1e200) is +Pi
+	if !math.IsNaN(r) && math.Signbit(r) != math.Signbit(y) {
+		r = -r
+	}
+	L.Push(LNumber(r))
 	return 1
 }
 
